@@ -129,6 +129,28 @@ Definition mdefault_ok (m : mdefault) : bool :=
   | UEscapes => Nat.ltb 0 (m_calls m) && Nat.eqb (m_calls m) (m_explicit m)
   end.
 
+(* writes to state shared by the whole process.  Why it matters beyond the running process: the numba functions are
+   compiled with cache=True and a module-level value read inside them is frozen into the compiled code AND into the
+   on-disk JIT cache, so a fit that assigned such a value would decide the results of later processes *)
+Inductive gwkind :=
+| GGlobalStmt      (* a `global` statement *)
+| GImported        (* assignment / mutation through an imported name: module attribute, class attribute, another module's container *)
+| GModuleObject    (* mutation, inside a function, of an object bound at module level in the same file *)
+| GConfigCall.     (* sklearn.set_config, np.seterr, os.putenv, logging.basicConfig, warnings.filterwarnings outside catch_warnings, ... *)
+Record gwrite := { w_file : string; w_scope : string (* function, or "<import>" *); w_kind : gwkind; w_target : string }.
+
+(* allow-list: statements executed ONCE, when the module is imported, writing the same constant in every process;
+   nothing inside a function is allowed.
+   - hourly/model.py: os.environ[OMP/MKL/OPENBLAS_NUM_THREADS] = "1" (the thread pin; see known finding C03-K1),
+     sklearn.set_config(assume_finite, skip_parameter_validation)
+   - bisect_k_means.py: logging.basicConfig (log output only) *)
+Definition gwrite_ok (w : gwrite) : bool :=
+  String.eqb (w_scope w) "<import>" &&
+  ((String.eqb (w_file w) "opendsm/eemeter/models/hourly/model.py" &&
+    (String.eqb (w_target w) "os.environ['OMP_NUM_THREADS']" || String.eqb (w_target w) "os.environ['MKL_NUM_THREADS']" ||
+     String.eqb (w_target w) "os.environ['OPENBLAS_NUM_THREADS']" || String.eqb (w_target w) "sklearn.set_config")) ||
+   (String.eqb (w_file w) "opendsm/common/clustering/bisect_k_means.py" && String.eqb (w_target w) "logging.basicConfig")).
+
 (* nested settings objects: _check_seed WRITES the seed onto self.elasticnet and self.temporal_cluster.  That is a write
    to the object's own state only if those nested objects are made per settings object; `default=X()` of a frozen
    (hashable) pydantic model is ONE instance shared by every settings object of the process *)
